@@ -96,3 +96,9 @@ JOINERS = ['', ' ', ' of ', ' of the ']
 
 # --- TRS standard form ------------------------------------------------------
 TRS_CANON = r"[0-9]{1,3}[ns][0-9]{1,3}[ew][0-9]{2}"
+
+
+# a clean aliquot chain as the preprocessor emits it and the parser consumes
+# it: any sequence of clean halves and quarters (halves may follow quarters:
+# 'NE¼N½' is the north half of the NE/4)
+ALIQUOT_CHAIN = r"([NESW]½|(NE|NW|SE|SW)¼)+"
